@@ -2,6 +2,59 @@ import DnsModel
 import Driver.Util
 open Dns Driver
 
+/-- `comp.pack <compressMsg 0/1> <startOff> item*` with item = `gap:<n>` (n opaque octets) or
+    `n<0/1>:<hexname>` (a name with its per-field compress flag).  Output: total length, then for every
+    name its offset and octets. -/
+def compPack (compressMsg : Bool) (start : Nat) (items : List String) : String := Id.run do
+  let mut off := start
+  let mut m : CMap := []
+  let mut outs : List String := []
+  for it in items do
+    if it.startsWith "gap:" then
+      match (it.drop 4).toString.toNat? with
+      | some n => off := off + n
+      | none => return "bad-op"
+    else
+      let flag := it.startsWith "n1:"
+      match unhex (it.drop 3).toString with
+      | some s =>
+        -- compressMsg = false: the map is invalid (nil), nothing is recorded or compressed
+        if compressMsg then
+          match packNameC s off m flag with
+          | .ok r =>
+            outs := outs ++ [s!"{off}:{hex r.out}"]
+            off := off + r.out.length
+            m := r.map
+          | _ => return "err"
+        else
+          match packName s with
+          | .ok w =>
+            outs := outs ++ [s!"{off}:{hex w}"]
+            off := off + w.length
+          | _ => return "err"
+      | none => return "bad-op"
+  return " ".intercalate (toString off :: outs)
+
+/-- `len.msg <compress 0/1> <startOff> item*`: Len's prediction with the simulated compression set;
+    items as for comp.pack.  Output: predicted total. -/
+def lenMsg (compress : Bool) (start : Nat) (items : List String) : String := Id.run do
+  let mut off := start
+  let mut c : Option (List Bytes) := if compress then some [] else none
+  for it in items do
+    if it.startsWith "gap:" then
+      match (it.drop 4).toString.toNat? with
+      | some n => off := off + n
+      | none => return "bad-op"
+    else
+      let flag := it.startsWith "n1:"
+      match unhex (it.drop 3).toString with
+      | some s =>
+        let (l, c') := domainNameLen s off c flag
+        off := off + l
+        c := c'
+      | none => return "bad-op"
+  return toString off
+
 /-- one operation: op name and arguments → one canonical output line -/
 def runOp (op : String) (args : List String) : String :=
   match op, args with
@@ -72,6 +125,12 @@ def runOp (op : String) (args : List String) : String :=
   | "rcode.join", [n, t] => match n.toNat? with
     | some n => toString (joinRcode n (if t == "-" then none else t.toNat?))
     | _ => "bad-op"
+  | "comp.pack", cm :: st :: items => match st.toNat? with
+    | some st => compPack (cm == "1") st items
+    | none => "bad-op"
+  | "len.msg", cm :: st :: items => match st.toNat? with
+    | some st => lenMsg (cm == "1") st items
+    | none => "bad-op"
   | "lab.count", [t] => match unhex t with
     | some s => toString (countLabel s) | _ => "bad-op"
   | "lab.split", [t] => match unhex t with
